@@ -138,6 +138,57 @@ def compare_wire(impl, model, ulps=0):
     return None
 
 
+def _isnum(tok):
+    return len(tok) == 16 and ':' not in tok and all(c in '0123456789abcdef' for c in tok)
+
+
+def compare_grouped(impl, model, groups):
+    """Compare two wire strings group by group. `groups` is a list of (count, mode, param):
+    mode 'exact'; 'scaled' = |d| <= param * 2^-52 * max|values of the group| (numpy/BLAS evaluation order);
+    'abs' = |d| <= param (values that went through round(): a 1-ulp difference upstream can flip the last
+    rounded digit). A group whose first implementation token is 'none' is a single token compared exactly.
+    A leading 'OK' token is compared exactly and skipped."""
+    if impl == model:
+        return None
+    a, b = impl.split(' '), model.split(' ')
+    if len(a) != len(b):
+        return f'shape: impl={impl[:200]} model={model[:200]}'
+    i = 0
+    if a and a[0] == 'OK':
+        if b[0] != 'OK':
+            return f'token {a[0]} vs {b[0]}'
+        i = 1
+    for count, mode, param in groups:
+        if i >= len(a):
+            break
+        if a[i] == 'none' or not _isnum(a[i]):
+            if a[i] != b[i]:
+                return f'token {a[i]} vs {b[i]}'
+            i += 1
+            if a[i - 1] == 'none':
+                continue
+            count -= 0
+        xs, ys = a[i:i + count], b[i:i + count]
+        i += count
+        if xs == ys:
+            continue
+        if not all(_isnum(t) for t in xs + ys):
+            return f'tokens {xs} vs {ys}'
+        xv, yv = [unhex(t) for t in xs], [unhex(t) for t in ys]
+        if mode == 'exact':
+            return f'{xv} vs {yv} (exact group)'
+        scale = max([abs(v) for v in xv if v == v and abs(v) != float("inf")] + [0.0])
+        tol = param * 2.0 ** -52 * scale if mode == 'scaled' else param
+        for u, v in zip(xv, yv):
+            if u == v or (u != u and v != v):
+                continue
+            if not abs(u - v) <= tol:
+                return f'{u!r} vs {v!r} (|d|={abs(u - v):.3e} > tol {tol:.3e}, mode {mode})'
+    if a[i:] != b[i:]:
+        return f'tail tokens {a[i:][:6]} vs {b[i:][:6]}'
+    return None
+
+
 class Stats:
     def __init__(self):
         self.counts = {}
